@@ -202,13 +202,13 @@ Definition step (s : wstate) (o : op) : wstate * res unit :=
           end
       end
   | OTruncVal l r lr rr =>
+      (* after the repair of D10: both cuts are computed before either is assigned *)
       match truncate (wx s) (wy s) l r lr rr with
       | Raise e => fail s e
       | Ok xy =>
-          let s1 := set_xy s (fst xy) (snd xy) in
-          match truncate (wrx s1) (wry s1) l r lr rr with
-          | Raise e => fail s1 e
-          | Ok r2 => done (set_rxy s1 (fst r2) (snd r2))
+          match truncate (wrx s) (wry s) l r lr rr with
+          | Raise e => fail s e
+          | Ok r2 => done (set_rxy (set_xy s (fst xy) (snd xy)) (fst r2) (snd r2))
           end
       end
   | OTruncIdx start stop =>
